@@ -1110,3 +1110,37 @@ def replay_converter(index, ob, seed, saved=None):
     finally:
         shutil.rmtree(tmp, ignore_errors=True)
     return _r(False)
+
+
+def replay_component_keywords(index, ob, seed, saved=None):
+    """Component constructors on the real code: a keyword given by the caller reaches the component with the caller's value, also when it is
+    False / 0 (scalar spelling, as the package documentation writes it); and a body built with text_convert=False renders its cells verbatim."""
+    import polars as pl
+    from contracts.readback import parse
+    rtf = index.real_module("rtflite")
+
+    def flat(v):
+        while isinstance(v, (list, tuple)) and len(v) > 0:
+            v = v[0]
+        return v
+    probes = [("RTFBody", {}), ("RTFTitle", {"text": "t"}), ("RTFSubline", {"text": "t"}), ("RTFFootnote", {"text": "t"}), ("RTFSource", {"text": "t"}),
+              ("RTFColumnHeader", {"text": ["a"]}), ("RTFPageHeader", {}), ("RTFPageFooter", {"text": "t"})]
+    falsy = [("text_convert", False), ("text_hyphenation", False), ("text_space_before", 0), ("text_indent_left", 0)]
+    for cls, base in probes:
+        for key, val in falsy:
+            case = {"class": cls, "keyword": key, "value": repr(val)}
+            if saved is not None and case != saved.get("input", saved):
+                continue
+            try:
+                obj = getattr(rtf, cls)(**dict(base, **{key: val}))
+            except Exception as e:
+                return _r(True, input=case, observed=f"{type(e).__name__}: {e}")
+            got = flat(getattr(obj, key))
+            if got != val or type(got) is not type(val):
+                return _r(True, input=case, observed=f"{key} of the component is {getattr(obj, key)!r}", expected=f"the caller's {val!r}")
+    df = pl.DataFrame({"a": ["x^2", "a_1"], "b": ["n >= 5", "4^"]})
+    s = rtf.RTFDocument(df=df, rtf_body=rtf.RTFBody(text_convert=False, as_colheader=False)).rtf_encode()
+    cells = [c.text for p in parse(s).pages for r in p.rows for c in r.cells]
+    if cells != ["x^2", "n >= 5", "a_1", "4^"]:
+        return _r(True, input={"body": "RTFBody(text_convert=False)", "cells": ["x^2", "n >= 5", "a_1", "4^"]}, observed=cells, expected="the cells verbatim")
+    return _r(False)
